@@ -143,7 +143,9 @@ func c10CtorSub() *engine.Sub {
 	return &engine.Sub{
 		Name: "constructors",
 		Rule: "every token of the d<=2 option universe (C07's alphabet), plus nonce lengths 0..13 and undefined principals in every position: whatever a constructor returns has a defined issuer, the principals its type requires and a nonce of >=12 bytes; non-trivial = constructor accepted",
-		Bound: func(string) string { return "d<=2 option deviations on Ed25519; nonce lengths 0..13 x 2 kinds; 5 undefined-principal placements" },
+		Bound: func(string) string {
+			return "d<=2 option deviations on Ed25519; nonce lengths 0..13 x 2 kinds; 5 undefined-principal placements"
+		},
 		Gen: func(tier string, emit func(any) bool) {
 			for _, kind := range []string{"dlg", "inv"} {
 				ok := true
@@ -235,10 +237,10 @@ type c10Mut struct {
 }
 
 type c10DecCase struct {
-	Kind string  `json:"kind"`
-	Alg  string  `json:"alg"`
-	Muts []c10Mut `json:"muts"`
-	Shape string `json:"shape,omitempty"` // envelope-shape mutation instead of payload mutations
+	Kind  string   `json:"kind"`
+	Alg   string   `json:"alg"`
+	Muts  []c10Mut `json:"muts"`
+	Shape string   `json:"shape,omitempty"` // envelope-shape mutation instead of payload mutations
 }
 
 func (c *c10DecCase) Weight() int { return len(c.Muts) }
@@ -270,29 +272,29 @@ func c10BasePayload(kind, alg string) envelopeParts {
 }
 
 var c10RetypeValues = map[string]func() datamodel.Node{
-	"bool":      func() datamodel.Node { return nBool(true) },
-	"int":       func() datamodel.Node { return nInt(1) },
-	"float":     func() datamodel.Node { return nFloat(1.5) },
-	"string":    func() datamodel.Node { return nStr("x") },
-	"bytes":     func() datamodel.Node { return nBytes([]byte("x")) },
-	"list":      func() datamodel.Node { return nList() },
-	"list1":     func() datamodel.Node { return nList(nInt(1)) },
-	"map":       func() datamodel.Node { return nMap() },
-	"link":      func() datamodel.Node { return nLink(7) },
-	"null":      func() datamodel.Node { return nNull() },
-	"empty-str": func() datamodel.Node { return nStr("") },
+	"bool":        func() datamodel.Node { return nBool(true) },
+	"int":         func() datamodel.Node { return nInt(1) },
+	"float":       func() datamodel.Node { return nFloat(1.5) },
+	"string":      func() datamodel.Node { return nStr("x") },
+	"bytes":       func() datamodel.Node { return nBytes([]byte("x")) },
+	"list":        func() datamodel.Node { return nList() },
+	"list1":       func() datamodel.Node { return nList(nInt(1)) },
+	"map":         func() datamodel.Node { return nMap() },
+	"link":        func() datamodel.Node { return nLink(7) },
+	"null":        func() datamodel.Node { return nNull() },
+	"empty-str":   func() datamodel.Node { return nStr("") },
 	"empty-bytes": func() datamodel.Node { return nBytes([]byte{}) },
 }
 
 var c10IntValues = map[string]func() datamodel.Node{
-	"int=2^53":     func() datamodel.Node { return nInt(1 << 53) },
-	"int=-2^53":    func() datamodel.Node { return nInt(-(1 << 53)) },
-	"int=2^53-1":   func() datamodel.Node { return nInt(1<<53 - 1) },
+	"int=2^53":      func() datamodel.Node { return nInt(1 << 53) },
+	"int=-2^53":     func() datamodel.Node { return nInt(-(1 << 53)) },
+	"int=2^53-1":    func() datamodel.Node { return nInt(1<<53 - 1) },
 	"int=-(2^53-1)": func() datamodel.Node { return nInt(-(1<<53 - 1)) },
-	"int=2^63-1":   func() datamodel.Node { return nInt(math.MaxInt64) },
-	"int=-2^63":    func() datamodel.Node { return nInt(math.MinInt64) },
-	"uint=2^64-1":  func() datamodel.Node { return basicnode.NewUint(math.MaxUint64) },
-	"uint=2^63":    func() datamodel.Node { return basicnode.NewUint(1 << 63) },
+	"int=2^63-1":    func() datamodel.Node { return nInt(math.MaxInt64) },
+	"int=-2^63":     func() datamodel.Node { return nInt(math.MinInt64) },
+	"uint=2^64-1":   func() datamodel.Node { return basicnode.NewUint(math.MaxUint64) },
+	"uint=2^63":     func() datamodel.Node { return basicnode.NewUint(1 << 63) },
 }
 
 var c10BadCommands = []string{"", "a", "a/b", "/A", "/a/", "//", "/a/B", "/Ä", " /a"}
@@ -308,14 +310,14 @@ func c10BadDIDs() map[string]string {
 		}
 	}
 	return map[string]string{
-		"did=empty":        "",
-		"did=prefix-only":  "did:key:",
-		"did=web":          "did:web:example.com",
-		"did=garbage":      "did:key:z0OIl",
-		"did=x25519":       didKeyString(uvarint(0xec), bytes.Repeat([]byte{1}, 32)),
-		"did=no-multibase": "did:key:" + fixtures.Get("ed25519", 1).DID.String()[9:],
+		"did=empty":           "",
+		"did=prefix-only":     "did:key:",
+		"did=web":             "did:web:example.com",
+		"did=garbage":         "did:key:z0OIl",
+		"did=x25519":          didKeyString(uvarint(0xec), bytes.Repeat([]byte{1}, 32)),
+		"did=no-multibase":    "did:key:" + fixtures.Get("ed25519", 1).DID.String()[9:],
 		"did=bad-keymaterial": uncStr,
-		"did=short-ed25519": didKeyString(uvarint(0xed), []byte{1, 2, 3}),
+		"did=short-ed25519":   didKeyString(uvarint(0xed), []byte{1, 2, 3}),
 	}
 }
 
@@ -601,10 +603,12 @@ func c10RunDecoders(ctx *engine.Ctx, rc any, kind string, sealed []byte, mustRej
 
 func c10DecoderSub() *engine.Sub {
 	return &engine.Sub{
-		Name: "decoders-mutated-payloads",
+		Name:   "decoders-mutated-payloads",
 		Repeat: true,
-		Rule: "payload of a fully populated delegation / invocation with one field (quick) or two fields (thorough, pairs of a representative subset) mutated - dropped, nulled, retyped to each IPLD kind, integers at +/-2^53, +/-(2^53-1), int64 extremes and uint64 beyond int64 in time fields / argument values / policy literals / metadata, invalid and unusual commands, invalid DIDs, nonce lengths 0..13, malformed policies and proof lists, an unknown extra field - then signed correctly by the issuer and offered to generic and both typed decoders; must-reject mutations must be rejected (a panic is not a rejection), whatever is returned must be well formed and of the decoder's type; non-trivial = all",
-		Bound: func(t string) string { return "2 kinds x every field x ~20-40 mutations (d=1); thorough adds pairs over 6 representative mutations per field; Ed25519 and P-256 issuers" },
+		Rule:   "payload of a fully populated delegation / invocation with one field (quick) or two fields (thorough, pairs of a representative subset) mutated - dropped, nulled, retyped to each IPLD kind, integers at +/-2^53, +/-(2^53-1), int64 extremes and uint64 beyond int64 in time fields / argument values / policy literals / metadata, invalid and unusual commands, invalid DIDs, nonce lengths 0..13, malformed policies and proof lists, an unknown extra field - then signed correctly by the issuer and offered to generic and both typed decoders; must-reject mutations must be rejected (a panic is not a rejection), whatever is returned must be well formed and of the decoder's type; non-trivial = all",
+		Bound: func(t string) string {
+			return "2 kinds x every field x ~20-40 mutations (d=1); thorough adds pairs over 6 representative mutations per field; Ed25519 and P-256 issuers"
+		},
 		Gen: func(tier string, emit func(any) bool) {
 			for _, alg := range []string{"ed25519", "p256"} {
 				for _, kind := range []string{"dlg", "inv"} {
@@ -685,10 +689,10 @@ func c10ShapeSub() *engine.Sub {
 		"dlg-payload-under-inv-tag", "inv-payload-under-dlg-tag", "unknown-ucan-tag", "tag-without-prefix", "valid-other-type",
 		"near-tag:append-0", "near-tag:append-+x", "near-tag:append-space", "near-tag:drop-last-char", "near-tag:upper-case", "near-tag:other-version", "near-tag:no-version", "near-tag:leading-space", "near-tag:double-slash", "near-tag:empty"}
 	return &engine.Sub{
-		Name: "envelope-shapes-and-tags",
+		Name:   "envelope-shapes-and-tags",
 		Repeat: true,
-		Rule: "well-signed envelopes whose signed part is not exactly one header plus one payload (1 or 3 entries, two ucan/ tags, no header, header of the wrong kind), outer lists of length 1 or 3, a payload under the other type's tag, under an unknown ucan/ tag or under ten near-miss spellings of the right tag (suffix, prefix, case, version), and a valid token of the other type offered to each typed decoder: all must be rejected; a delegation is never returned as an invocation or vice versa; non-trivial = all",
-		Bound: func(string) string { return fmt.Sprintf("%d shapes x 2 kinds x 6 decoders", len(shapes)) },
+		Rule:   "well-signed envelopes whose signed part is not exactly one header plus one payload (1 or 3 entries, two ucan/ tags, no header, header of the wrong kind), outer lists of length 1 or 3, a payload under the other type's tag, under an unknown ucan/ tag or under ten near-miss spellings of the right tag (suffix, prefix, case, version), and a valid token of the other type offered to each typed decoder: all must be rejected; a delegation is never returned as an invocation or vice versa; non-trivial = all",
+		Bound:  func(string) string { return fmt.Sprintf("%d shapes x 2 kinds x 6 decoders", len(shapes)) },
 		Gen: func(tier string, emit func(any) bool) {
 			for _, kind := range []string{"dlg", "inv"} {
 				for _, s := range shapes {
@@ -1149,10 +1153,10 @@ func nodeShape(n datamodel.Node) string {
 func c10ValueSub() *engine.Sub {
 	vals := c10GoValues()
 	return &engine.Sub{
-		Name: "go-values-stored-exactly",
+		Name:   "go-values-stored-exactly",
 		Repeat: true,
-		Rule: "every Go numeric type x {0, +/-1, +/-(2^53-1), +/-2^53, type min, type max}, float specials, named types, containers and pointers carrying boundary numbers, strings, bytes, CIDs, IPLD nodes and unsupported types, handed to literal.Any, args.Add, args.Builder (Build / BuildIPLD), args.ToIPLD, args.Include + Clone, invocation.WithArgument / WithArguments and meta.Add: the call returns an error (never panics) or stores a node whose numbers are mathematically equal to the supplied ones and whose whole content (kinds, strings, bytes, booleans, links, list order and length, map keys) equals the reference rendering of the Go value; a second Add of a key is rejected and leaves the first value in place; arguments additionally never hold an integer beyond +/-(2^53-1); non-trivial = numeric values",
-		Bound: func(string) string { return fmt.Sprintf("%d Go values x 10 entry points", len(vals)) },
+		Rule:   "every Go numeric type x {0, +/-1, +/-(2^53-1), +/-2^53, type min, type max}, float specials, named types, containers and pointers carrying boundary numbers, strings, bytes, CIDs, IPLD nodes and unsupported types, handed to literal.Any, args.Add, args.Builder (Build / BuildIPLD), args.ToIPLD, args.Include + Clone, invocation.WithArgument / WithArguments and meta.Add: the call returns an error (never panics) or stores a node whose numbers are mathematically equal to the supplied ones and whose whole content (kinds, strings, bytes, booleans, links, list order and length, map keys) equals the reference rendering of the Go value; a second Add of a key is rejected and leaves the first value in place; arguments additionally never hold an integer beyond +/-(2^53-1); non-trivial = numeric values",
+		Bound:  func(string) string { return fmt.Sprintf("%d Go values x 10 entry points", len(vals)) },
 		Gen: func(tier string, emit func(any) bool) {
 			for _, v := range vals {
 				if !emit(&c10ValCase{Type: v.Type, Val: v.Val}) {
